@@ -23,7 +23,10 @@ META = {
     'design_ref': 'DESIGN.md section 4 C13',
     'theorems': ['C13_dispatch_v0', 'C13_dispatch_v1', 'C13_order_irrelevant_v0', 'C13_order_irrelevant_v1', 'C13_unknown_tag',
                  'C13_no_tag', 'C13_scalars_do_not_capture_dicts', 'C13_tag_not_unknown', 'C13_equal_names_refuted',
-                 'C13_equal_names_v1_refuted', 'C13_tag_key_before_first_dump_refuted', 'C13_member_auto_tag_refuted'],
+                 'C13_equal_names_v1_refuted', 'C13_tag_key_before_first_dump_refuted', 'C13_member_auto_tag_refuted',
+                 'C13_cont_dispatch_v1', 'C13_cont_dispatch_v0_partial', 'C13_cont_dict_member_captures_v0', 'C13_cont_dict_member_refuted',
+                 'C13_cont_values_v0', 'C13_cont_values_v1', 'C13_cont_order_irrelevant_v0', 'C13_cont_order_irrelevant_v1',
+                 'C13_partial_fields', 'C13_defaults_filled'],
     'tables': [],
     'level_text': ('Theorems proved in Coq for ALL families (any number of members, any field sets, scalar members and None mixed in), '
                    'all injective tag assignments (explicit / auto / mixed), all tag-key strings that are not a field, all Union argument '
@@ -31,10 +34,18 @@ META = {
                    'dumped member instance loads back as the same class with the same fields; unknown tag -> ParseError with the valid '
                    'tags; no tag -> ParseError; the tag key is neither reported unknown nor captured. The forced hypotheses are shown '
                    'necessary by refutation theorems whose witnesses fail on the implementation: equal __name__s (F9, open) and, new, '
-                   'auto-assigned tag + first load before any dump (F23, open). The model is re-validated against the implementation on every run.'),
+                   'auto-assigned tag + first load before any dump (F23, open). Container-typed Union members (list[s], dict[str, s], tuple) beside the '
+                   'dataclasses are modelled for both engines (TagUnionCont.v) and the theorems hold for ANY number of them anywhere among the arguments: '
+                   'v1 reads the tag first, so they never capture a dumped member (C13_cont_dispatch_v1); default engine: proved on the safe region '
+                   '"no dict-typed member" (_partial) and refuted otherwise - a dict-typed member takes EVERY dict whatever the argument order '
+                   '(C13_cont_dict_member_captures_v0, finding F96, open); list / dict values of a container member are never mistaken for a dataclass; '
+                   'Permutation invariance with container members; a tagged document with ANY subset of the fields is handed to the tagged class and '
+                   'its constructor rule (defaults / MissingFields) applies (C13_partial_fields, C13_defaults_filled). '
+                   'The model is re-validated against the implementation on every run.'),
     'level_note': ('Trusted: Coq kernel + vm_compute; the hand-written model coq/model/TagUnion.v (field values travel unchanged: field-level '
-                   'coercions are C01/C04; all init fields required; Union members of container/dict type '
-                   'not modelled); the harness.'),
+                   'coercions are C01/C04; element conversions of container-typed Union members for values that are not of the declared '
+                   'element type, and the v1 tuple loader, are oracles (Section variables coerce / tuple_v1: every theorem holds for all of them; the '
+                   'correspondence compares only oracle-free documents); at a Union with container members a JDict is a plain dict); the harness.'),
     'rule': ('families of 2-4 dataclasses over a 4-field pool with identical / nested / overlapping field sets; tags auto / explicit / mixed, '
              'explicit tags and tag keys drawn from a pool with quotes, backslashes, spaces, newline, non-ASCII; scalar members (int, str, '
              'bool, float, None) mixed in; Union argument order: all permutations of <= 4 arguments in thorough, sampled in quick; positions '
@@ -42,15 +53,20 @@ META = {
              '(documents built by the harness); tag assignment = full product {explicit, none} x {member auto flag} x {container auto flag}; histories: '
              'members dumped / loaded alone (both orders) before the container is first used; documents as dict / OrderedDict / defaultdict / user subclass; '
              'a stream of RICH members (path fields, aliases, defaults/factories, skip rules, init=False, nested dataclasses/containers, CatchAll, inheritance '
-             'between members; direct predicates only); plus a small stream of families with equal __name__s (region F9). distinct = distinct '
+             'between members; direct predicates only); a stream of families with 1-3 container-typed members (List[int|str], Dict[str, int|str], '
+             'Tuple[int, int], Tuple[int, ...]) at random places among the arguments, with a value of every container member, untagged lists / dicts '
+             '(empty, wrong element type, nested) and tagged documents that omit the defaulted fields; plus a small stream of families with equal __name__s (region F9). distinct = distinct '
              'configuration JSON; every configuration has >= 2 look-alike members, so every one is non-trivial.'),
     'trusted_base': ['model coq/model/TagUnion.v transcribes UnionParser.__call__/__post_init__, v1 load_to_union and the member loaders\' '
-                     'unknown-key handling (validated by the correspondence run)'],
+                     'unknown-key handling (validated by the correspondence run)',
+                     'model coq/model/TagUnionCont.v transcribes the position of container parsers in UnionParser.parsers (scanned by exact type before '
+                     'the tag is read) and v1 load_to_union\'s type_checks / try-loads in argument order after the tag branch (validated by the '
+                     'correspondence run on the container-member stream)'],
     'assumptions': ['tags_injective: no two members carry the same explicit-or-auto tag (forced: tag -> loader map); v1: distinct __name__s (F9)',
                     'the tag key is not a field of a member and is configured on the class containing the Union (members do not set another one)',
                     'every member carries a tag: explicit Meta.tag, or auto_assign_tags on the container and/or in the member\'s own Meta (full product; the member-only case is region F62)',
                     'input documents are dict instances of any subclass (dict, OrderedDict, defaultdict without factory, user subclass)',
-                    'scalar Union members are int/str/bool/float/None (a dict- or list-typed member captures dicts by exact type)',
+                    'scalar Union members are int/str/bool/float/None; container members are list[s] / dict[str, s] / tuple with scalar elements',
                     'fresh interpreter per configuration'],
 }
 
@@ -58,6 +74,7 @@ F9_ID = 'F9-C13-equal-names'
 F23_ID = 'F23-auto-tag-key-unknown-before-first-dump'
 F62_ID = 'F62-member-level-auto-tag-not-dumped'
 F63_ID = 'F63-member-own-tag-key-not-read'
+F96_ID = 'F96-c13-dict-member-captures-tagged-dicts'
 
 FIELD_POOL = [('a', 'int', None), ('b', 'str', None), ('d', 'List[int]', None), ('c', 'int', '3')]   # the defaulted field last
 FIELD_SETS = {   # relation -> list of field-index sets per member (cut to family size)
@@ -166,6 +183,137 @@ def gen_config(rng, engine, mode, equal_names=False, order_idx=None):
             hist.append({'op': kind, 'member': i, 'values': vals, 'doc': vals})
     cfg['ops'] = hist + gen_ops(cfg, rng)
     return cfg
+
+
+# ---- container-typed Union members (list[...], dict[str, ...], tuple[...]) beside the tagged dataclasses ----------------
+CONT_KINDS = {'List[int]': ('list', 'int'), 'List[str]': ('list', 'str'), 'Dict[str, int]': ('dict', 'int'),
+              'Dict[str, str]': ('dict', 'str'), 'Tuple[int, int]': ('tuple', 'int'), 'Tuple[int, ...]': ('tuple', 'int')}
+CONT_COQ = {'List[int]': 'CList SInt', 'List[str]': 'CList SStr', 'Dict[str, int]': 'CDict SInt', 'Dict[str, str]': 'CDict SStr',
+            'Tuple[int, int]': 'CTuple', 'Tuple[int, ...]': 'CTuple'}
+SCALAR_NAMES = ('int', 'str', 'bool', 'float')
+
+
+def cont_members(cfg, base=None):
+    return [a for a in cfg['order'] if a in CONT_KINDS and (base is None or CONT_KINDS[a][0] == base)]
+
+
+def cont_value(kind, rng):
+    base, el = CONT_KINDS[kind]
+    n = rng.choice([0, 1, 2, 3])
+    elems = [rng.randrange(-9, 10) if el == 'int' else rng.choice(['x', 'yy', 'K0', 'zq']) for _ in range(n)]
+    if base == 'dict':
+        return {'k%d' % j: e for j, e in enumerate(elems)}
+    return elems
+
+
+def gen_cont_config(rng, engine):
+    """A family as in the main stream with 1-3 container members at random places among the Union arguments; documents are
+    plain dicts (the default engine's exact-type test `type(o) is dict` is part of what is modelled)."""
+    cfg = gen_config(rng, engine, rng.choice(['roundtrip', 'roundtrip', 'loadfirst']))
+    kinds = sorted(CONT_KINDS)
+    if engine == 'v0' and rng.random() < 0.6:
+        kinds = [k for k in kinds if not k.startswith('Dict')]          # most default-engine families in the safe region
+    conts = rng.sample(kinds, rng.choice([1, 1, 2, 3]))
+    order = [a for a in cfg['order'] if isinstance(a, int)] + [a for a in cfg['order'] if not isinstance(a, int)][:2] + conts
+    rng.shuffle(order)
+    cfg['order'] = order
+    cfg['cont'] = True
+    cfg['doc_type'] = 'dict'
+    cfg['history'] = 'none'
+    cfg['ops'] = gen_ops(cfg, rng)
+    tk = tag_key(cfg)
+    for kind in conts:                                                # a value of every container member
+        cfg['ops'].append({'op': 'load', 'doc': cont_value(kind, rng), 'expect': 'cont', 'kind': kind})
+    for doc in rng.sample([[], {}, {'k': 1}, {'k': 'x'}, ['zq'], [1, 2], ['x', 'yy'], [[1]], [{'a': 1}], {'k': [1]}], 4):
+        cfg['ops'].append({'op': 'load', 'doc': doc, 'expect': 'untagged'})
+    return cfg
+
+
+def plain_str(e):
+    """a string no int() accepts (so the element conversion to int fails in every engine: no oracle needed)"""
+    if not isinstance(e, str) or not any(ch.isalpha() and ch.isascii() for ch in e):
+        return False
+    if e.strip().lower() in ('true', 'false', 'nan', 'inf', 'infinity', 'none', 'null'):
+        return False
+    try:
+        float(e)
+        return False
+    except ValueError:
+        return True
+
+
+def oracle_free(cfg, doc):
+    """True iff the model needs no `coerce` / `tuple_v1` oracle value to decide this document (the harness supplies none)."""
+    eng = cfg['engine']
+    tagged = isinstance(doc, dict) and tag_key(cfg) in doc
+    if eng == 'v1' and tagged:
+        return True                                   # tag branch first
+    if eng == 'v1' and (cont_members(cfg, 'tuple') or any(a in SCALAR_NAMES for a in cfg['order'])):
+        return False
+    for kind in cont_members(cfg):
+        base, el = CONT_KINDS[kind]
+        if base == 'tuple':
+            continue
+        if base == 'list':
+            if isinstance(doc, list):
+                elems = doc
+            elif eng == 'v1' and isinstance(doc, dict):
+                elems = list(doc)
+            elif eng == 'v1' and isinstance(doc, str):
+                elems = list(doc)
+            else:
+                continue
+        else:
+            if not isinstance(doc, dict):
+                continue
+            elems = list(doc.values())
+        for e in elems:
+            if type(e).__name__ == el:
+                continue
+            if el == 'int' and plain_str(e):
+                continue                              # int('zq') raises in every engine (as_int([]) is 0: containers need the oracle)
+            return False
+    return True
+
+
+def in_region_F96(cfg):
+    """default engine and a member whose base type is dict: that member takes every dict, tagged or not."""
+    return cfg['engine'] == 'v0' and bool(cont_members(cfg, 'dict'))
+
+
+def first_exact(cfg, base, elems):
+    """elements are exactly of the element type of the FIRST container member with that base type"""
+    ms = cont_members(cfg, base)
+    return bool(ms) and all(type(e).__name__ == CONT_KINDS[ms[0]][1] for e in elems)
+
+
+def check_untagged_cont(cfg, op, r):
+    """Documented outcome for a list / an untagged dict at a Union with container members (independent reference):
+    never a dataclass member; a value whose elements have exactly the declared type goes to the first container member of
+    its kind unchanged (v1: unless a member that iterates its input - list / tuple - could take it first); with no
+    untagged alternative of that shape at all: ParseError."""
+    doc, eng = op['doc'], cfg['engine']
+    if r.get('loaded_member') is not None:
+        return ('untagged value %r was loaded as dataclass member %r' % (doc, r['loaded_member']), None)
+    scal = [a for a in cfg['order'] if a in SCALAR_NAMES]
+    lists, dicts, tuples = cont_members(cfg, 'list'), cont_members(cfg, 'dict'), cont_members(cfg, 'tuple')
+
+    def same():
+        try:
+            return 'err' not in r and show_jv_py(uncanon(r['loaded'])) == show_jv_py(doc)
+        except (ValueError, TypeError):
+            return False
+    if isinstance(doc, list):
+        if first_exact(cfg, 'list', doc) and (eng == 'v0' or not tuples) and not same():
+            return ('list value %r of the first list member came back as %r' % (doc, r.get('loaded') if 'err' not in r else r['err']), None)
+        if not lists and (eng == 'v0' or (not tuples and not any(s in ('str', 'bool') for s in scal))) and r.get('err') != 'ParseError':
+            return ('list %r with no list-typed alternative: got %s, expected ParseError' % (doc, r.get('err') or 'a value'), None)
+    elif isinstance(doc, dict):
+        if first_exact(cfg, 'dict', list(doc.values())) and (eng == 'v0' or (not lists and not tuples)) and not same():
+            return ('dict value %r of the first dict member came back as %r' % (doc, r.get('loaded') if 'err' not in r else r['err']), None)
+        if not dicts and (eng == 'v0' or (not lists and not tuples and not any(s in ('str', 'bool') for s in scal))) and r.get('err') != 'ParseError':
+            return ('untagged dict %r with no dict-typed alternative: got %s, expected ParseError' % (doc, r.get('err') or 'a value'), None)
+    return None
 
 
 # ---- rich members: the declaration styles of the other properties, crossed with the tag modes ----------------------
@@ -337,9 +485,15 @@ def gen_ops(cfg, rng):
             if tags[i] is not None:
                 doc[tk] = tags[i]
             ops.append({'op': 'load', 'doc': doc, 'expect_member': i, 'expect_fields': vals})
+        dfl = {f: int(d) for f, _, d in m['fields'] if d is not None}
+        if dfl and tags[i] is not None:
+            # a document that omits the defaulted fields: the tag alone selects K, K's defaults fill in
+            doc = {f: v for f, v in vals.items() if f not in dfl}
+            doc[tk] = tags[i]
+            ops.append({'op': 'load', 'doc': doc, 'expect_member': i, 'expect_fields': dict({f: v for f, v in vals.items() if f not in dfl}, **dfl)})
     if cfg['mode'] == 'roundtrip':
         for s in cfg['order']:
-            if isinstance(s, str) and s != 'None':
+            if isinstance(s, str) and s in SCALARS:
                 ops.append({'op': 'scalar', 'value': SCALARS[s]})
     base = dict(values_for(members[0], rng))
     t0 = rng.choice([t for t in tags if t] or ['x'])
@@ -376,6 +530,9 @@ def gen_configs(ctx):
     # rich members: paths, aliases, defaults / factories, skip rules, nested dataclasses and containers, inheritance
     for _ in range(160 if quick else 1500):
         cfgs.append(gen_rich_config(rng, rng.choice(['v0', 'v1'])))
+    # container-typed members (list / dict / tuple) beside the dataclasses
+    for _ in range(150 if quick else 1200):
+        cfgs.append(gen_cont_config(rng, rng.choice(['v0', 'v1'])))
     # region F9: equal __name__s
     for _ in range(30 if quick else 200):
         cfgs.append(gen_config(rng, rng.choice(['v0', 'v1']), rng.choice(['roundtrip', 'loadfirst']), equal_names=True))
@@ -520,6 +677,9 @@ def check_op(cfg, op, r):
     if op['op'] in ('alone_dump', 'alone_load'):
         return None            # an earlier use of the member class on its own: no C13 predicate, only history
     if op['op'] == 'scalar':
+        if (cfg.get('cont') and cfg['engine'] == 'v1' and isinstance(op['value'], str)
+                and any(a in CONT_KINDS and CONT_KINDS[a][0] != 'dict' for a in cfg['order'][:cfg['order'].index('str')])):
+            return None        # v1: a list / tuple member BEFORE `str` iterates the string (untagged alternatives are tried in order)
         if 'err' in r or not r.get('equal'):
             return ('scalar member value %r does not survive dump/load: %r' % (op['value'], r), None)
         return None
@@ -547,6 +707,8 @@ def check_op(cfg, op, r):
         if not r.get('renders'):
             return ('unknown tag: ParseError does not render', None)
         return None
+    if cfg.get('cont') and op.get('expect') in ('no_tag', 'cont', 'untagged'):
+        return check_untagged_cont(cfg, op, r)
     if op.get('expect') == 'no_tag':
         scal = [s for s in cfg['order'] if isinstance(s, str)]
         if cfg['engine'] == 'v1' and any(s in ('str', 'bool') for s in scal):
@@ -663,6 +825,8 @@ def norm_model(s):
     if s.startswith('err:ParseError:tags='):
         tags = [t for t in s[len('err:ParseError:tags='):].split(',')]
         return 'err:ParseError:tags=' + ','.join(sorted(tags, key=lambda h: bytes.fromhex(h).decode('utf-8', 'replace')))
+    if s in ('err:elem', 'err:ValueError'):
+        return 'err:elem'      # default engine: the element conversion of a container member raised (ValueError / TypeError)
     if s.startswith('err:UnknownKeysError') or s.startswith('err:MissingFields'):
         return s.split(':')[0] + ':' + s.split(':')[1]
     return s
@@ -676,18 +840,26 @@ def model_exprs(cfg, res, n):
     for i in range(len(cfg['members'])):
         pre_lines.append('Definition m_%d_%d : member := %s.' % (n, i, coq_member(cfg, i)))
     args = []
+    cont = bool(cfg.get('cont'))
     for a in cfg['order']:
         if isinstance(a, int):
-            args.append('AData m_%d_%d' % (n, a))
+            x = 'AData m_%d_%d' % (n, a)
         elif a == 'None':
-            args.append('ANone')
+            x = 'ANone'
+        elif a in CONT_KINDS:
+            args.append('CCont (%s)' % CONT_COQ[a])
+            continue
         else:
-            args.append('AScalar %s' % {'int': 'SInt', 'str': 'SStr', 'bool': 'SBool', 'float': 'SFloat'}[a])
-    pre_lines.append('Definition a_%d : list arg := %s.' % (n, coq_list(args)))
+            x = 'AScalar %s' % {'int': 'SInt', 'str': 'SStr', 'bool': 'SBool', 'float': 'SFloat'}[a]
+        args.append('CArg (%s)' % x if cont else x)
+    pre_lines.append('Definition a_%d : list %s := %s.' % (n, 'carg' if cont else 'arg', coq_list(args)))
     c, pos = 'c_%d' % n, POS_COQ[cfg['container']['position']]
     pre = 'true' if pre_assigned(cfg) else 'false'
     built = False        # has the container's Union parser been built (an earlier load through the container)?
-    if cfg['engine'] == 'v0':
+    if cont:
+        loader = ('(load_union_c_v0 no_coerce %s %s a_%d)' % (c, pre, n) if cfg['engine'] == 'v0'
+                  else '(load_union_c_v1 no_coerce no_tuple %s a_%d)' % (c, n))
+    elif cfg['engine'] == 'v0':
         loader = '(load_union_v0 %s %s a_%d)' % (c, pre, n)
     else:
         loader = '(load_union_v1 no_coerce %s a_%d)' % (c, n)
@@ -702,7 +874,9 @@ def model_exprs(cfg, res, n):
             nested = uncanon(r['dumped'])
             doc = WRAP[cfg['container']['position']](nested)
             v1_coerces = cfg['engine'] == 'v1' and any(isinstance(a, str) and a != 'None' for a in cfg['order'])
-            if not (v1_coerces and tag_key(cfg) not in nested):     # untagged + v1 scalar loaders: oracle not supplied
+            if cont and not oracle_free(cfg, nested):
+                pass
+            elif not (v1_coerces and tag_key(cfg) not in nested):     # untagged + v1 scalar loaders: oracle not supplied
                 out.append((k, 'load', 'show_res (load_pos %s %s %s)' % (loader, pos, coq_jv(doc))))
             built = True
         elif op['op'] == 'scalar':
@@ -711,6 +885,8 @@ def model_exprs(cfg, res, n):
             built = True
             if op.get('expect') == 'no_tag' and cfg['engine'] == 'v1' and any(s in ('str', 'bool', 'float', 'int') for s in cfg['order'] if isinstance(s, str)):
                 continue      # v1 coercions of the scalar loaders are an oracle the harness does not supply
+            if cont and not oracle_free(cfg, op['doc']):
+                continue      # element conversions of values that are not of the declared type: oracle not supplied
             doc = WRAP[cfg['container']['position']](op['doc'])
             out.append((k, 'load', 'show_res (load_pos %s %s %s)' % (loader, pos, coq_jv(doc))))
     return '\n'.join(pre_lines), out
@@ -737,7 +913,7 @@ def eval_model(ctx, cfgs, results, limit):
 
     def one(j):
         pre, plan, exprs = chunks[j]
-        return ctx.coq(exprs, ['PyStr', 'TagUnion'], prelude='\n'.join(pre), tag='cases_%d' % j)
+        return ctx.coq(exprs, ['PyStr', 'TagUnion', 'TagUnionCont'], prelude='\n'.join(pre), tag='cases_%d' % j)
     plan_all, out_all = [], []
     with cf.ThreadPoolExecutor(max_workers=8 if ctx.tier == 'quick' else 14) as ex:
         for j, out in enumerate(ex.map(one, range(len(chunks)))):
@@ -770,6 +946,8 @@ def op_regions(cfg, op):
         out.add(F23_ID)      # under F9 the loader of another member of the same name is the one that runs
     if i is not None and in_region_F62(cfg, i):
         out.add(F62_ID)
+    if cfg.get('cont') and in_region_F96(cfg) and isinstance(op.get('doc', {}), dict):
+        out.add(F96_ID)
     return out
 
 
@@ -777,7 +955,7 @@ def run(ctx):
     resolved = set()
     for f in ctx.findings():
         w = f.get('witness')
-        if not isinstance(w, dict) or 'cfg' not in w or f['id'] not in (F9_ID, F23_ID, F62_ID, F63_ID):
+        if not isinstance(w, dict) or 'cfg' not in w or f['id'] not in (F9_ID, F23_ID, F62_ID, F63_ID, F96_ID):
             continue
         cfg = dict(w['cfg']); cfg.setdefault('mode', 'loadfirst' if cfg['ops'][0]['op'] == 'load' else 'roundtrip')
         bad = witness_fails(ctx, cfg)
@@ -818,7 +996,9 @@ def run(ctx):
         ctx.hist('relation', cfg['relation'])
         ctx.hist('tagging', cfg['tagging'])
         ctx.hist('position', cfg['container']['position'])
-        ctx.hist('scalars', len([a for a in cfg['order'] if isinstance(a, str)]))
+        ctx.hist('scalars', len([a for a in cfg['order'] if isinstance(a, str) and a not in CONT_KINDS]))
+        for a_ in cont_members(cfg):
+            ctx.hist('container members', '%s/%s' % (cfg['engine'], a_))
         ctx.hist('history', cfg['history'])
         ctx.hist('doc_type', cfg['doc_type'])
         for m_ in cfg['members']:
@@ -843,6 +1023,9 @@ def run(ctx):
                 ctx.hist('known_region', F62_ID)
             elif i is not None and in_region_F63(cfg, i) and ctx.is_open_region(F63_ID):
                 ctx.hist('known_region', F63_ID)
+            elif (cfg.get('cont') and in_region_F96(cfg) and ctx.is_open_region(F96_ID)
+                  and (op['op'] == 'roundtrip' or 'expect_member' in op or op.get('expect') == 'unknown_tag')):
+                ctx.hist('known_region', F96_ID)
             elif i is None and any_F9(cfg) and op.get('expect') == 'unknown_tag' and ctx.is_open_region(F9_ID):
                 ctx.hist('known_region', F9_ID)
             else:
@@ -861,7 +1044,7 @@ def run(ctx):
                 same = (got == m)
             else:
                 got = impl_show(cfg, r)
-                same = (norm_model(got) == norm_model(m))
+                same = (norm_model(got) == norm_model(m)) or (m == 'err:elem' and got in ('err:ValueError', 'err:TypeError'))
             if not same:
                 n_ties += 1
                 ctx.disagreements_checked += 1
